@@ -211,7 +211,7 @@ def run_case(case, acc):
                 acc.count("recycled_caller_calls")
                 if r[0] != "NoSuchProcess":
                     mech = f"recycled_caller_no_NSP:{name}"
-                    if caller == min(t.procs) and name in ("parent", "parents") and r[0] == "ok":
+                    if caller == min(t.procs) and name in ("parent", "parents") and r[0] == "ok" and r[1] in (None, []):
                         mech = "recycled_lowest_listed_pid_parent_shortcut"
                     viols.append((mech, ctx + f" -> {r[0]}:{str(r[1])[:100]}"))
             acc.case(case, True, viols)
